@@ -81,10 +81,17 @@ Theorem C02_refund_covered_by_prepayment :
 Proof. exact refund_covered_by_prepayment. Qed.
 Print Assumptions C02_refund_covered_by_prepayment.
 
+(** Per message, for every gas limit and every (non-negative) wei price — whole unibi or not: the refund
+    WeiToNative(leftover gas × price) never exceeds the prepayment WeiToNative(gas limit × price). *)
+Theorem C02_refund_le_prepayment_any_wei_price :
+  forall g p, 0 <= p -> refund_of g p <= prepay true g p.
+Proof. exact refund_le_exact_prepay. Qed.
+Print Assumptions C02_refund_le_prepayment_any_wei_price.
+
 (** What "admitted" means, as a function of the ante chain: with the gas and nonce decorators installed, a
     successful EVM ante pass is an admission of every message in order. *)
 Theorem C02_evm_ante_admits :
-  forall c ms s s1, e_gas c = true -> e_seq c = true ->
+  forall c ms s s1, e_gas c = true -> fee_exact c = true -> e_seq c = true ->
     evm_admit c ms s = Some s1 -> exists ls, direct_eth ms = Some ls /\ admit_seq s ls s1.
 Proof. exact evm_admit_admits. Qed.
 Print Assumptions C02_evm_ante_admits.
@@ -112,6 +119,13 @@ Theorem C02_refuted_if_signers_read_from_field :
   exists h x a, Forall (tx_wf harness_world) (h ++ [x]) /\ violated_by cfg_signer_from_field h x a.
 Proof. exact refuted_if_signers_read_from_field. Qed.
 Print Assumptions C02_refuted_if_signers_read_from_field.
+
+(** VerifyFee pricing the gas limit with the price truncated to whole unibi per gas. *)
+Theorem C02_refuted_if_fee_priced_per_truncated_gas_price :
+  exists x a, tx_wf harness_world x /\ t_ext x = EvmExt /\
+    bal_of harness_init a < bal_of (fst (deliver cfg_fee_per_gas harness_world harness_init x)) a.
+Proof. exact refuted_if_fee_priced_per_truncated_gas_price. Qed.
+Print Assumptions C02_refuted_if_fee_priced_per_truncated_gas_price.
 
 (** The wasm handler's "signer must be the contract" check dropped. *)
 Theorem C02_refuted_if_wasm_signer_unchecked :
